@@ -33,7 +33,13 @@ func RemoveNth(_ context.Context, args ...core.Value) (core.Value, error) {
 
 	arr := args[0].(*values.Array)
 	index := int(args[1].(values.Int))
-	result := values.NewArray(int(arr.Length() - 1))
+	size := int(arr.Length()) - 1
+
+	if size < 0 {
+		size = 0
+	}
+
+	result := values.NewArray(size)
 
 	arr.ForEach(func(value core.Value, idx int) bool {
 		if idx != index {
